@@ -22,7 +22,6 @@ import (
 	"math/big"
 	"net"
 	nethttp "net/http"
-	"net/http/httptest"
 	"os"
 	"path/filepath"
 	"sort"
@@ -413,19 +412,12 @@ func claimDefects() []claimDefect {
 			m["nbf"] = now.Add(-time.Minute).Unix()
 		}),
 		d("exp-string", true, func(m map[string]any) { m["exp"] = "never" }),
-		// numeric extremes of the time claims: zero / negative timestamps, lifetimes of centuries (overflowing arithmetic)
+		// zero / negative timestamps (the systematic family of numeric extremes is timeExtremes below)
 		d("exp-zero", true, func(m map[string]any) { m["exp"] = int64(0) }),
 		d("exp-zero-old-iat-nbf", true, func(m map[string]any) { m["exp"], m["iat"], m["nbf"] = int64(0), int64(1), int64(1) }),
 		d("exp-one", true, func(m map[string]any) { m["exp"] = int64(1) }),
 		d("exp-negative", true, func(m map[string]any) { m["exp"] = int64(-1) }),
 		d("nbf-iat-zero", true, func(m map[string]any) { m["iat"], m["nbf"] = int64(0), int64(0) }),
-		d("life-292y", true, func(m map[string]any) { m["exp"] = now.Unix() + 292*365*86400 }),
-		d("life-293y", true, func(m map[string]any) { m["exp"] = now.Unix() + 293*365*86400 + 80*86400 }),
-		d("life-300y", true, func(m map[string]any) { m["exp"] = now.Unix() + 300*365*86400 }),
-		d("life-580y", true, func(m map[string]any) { m["exp"] = now.Unix() + 580*365*86400 }),
-		d("life-1000y", true, func(m map[string]any) { m["exp"] = now.Unix() + 1000*365*86400 }),
-		d("exp-maxint64", true, func(m map[string]any) { m["exp"] = int64(9223372036854775807) }),
-		d("exp-maxint64-div-1e9", true, func(m map[string]any) { m["exp"] = int64(9223372036) }),
 		d("exp-float", false, func(m map[string]any) { m["exp"] = float64(now.Unix()+3600) + 0.5 }),
 		d("extra-claim", false, func(m map[string]any) { m["admin"] = true }),
 	}
@@ -625,8 +617,11 @@ func acceptable(s tokenSpec, signers []*signer, genuine bool) bool {
 
 // claimNumber returns the exact value of a time claim as it is sent: the JSON number literal the claim is serialised to.
 func claimNumber(v any) (*big.Rat, bool) {
-	switch v.(type) {
+	switch x := v.(type) {
 	case int64, int, float64, json.Number:
+	case string:
+		r, ok := new(big.Rat).SetString(strings.TrimSpace(x))
+		return r, ok
 	default:
 		return nil, false
 	}
@@ -793,21 +788,21 @@ func timeExtremes() []claimDefect {
 	add := func(name string, f func(m map[string]any)) { out = append(out, claimDefect{name: "time-extreme/" + name, apply: f}) }
 	for _, o := range offs {
 		o := o
-		add("exp=now+"+o.name, func(m map[string]any) { m["exp"] = at(o.v) })
-		add("exp=nbf+"+o.name, func(m map[string]any) { m["exp"] = lit(new(big.Int).Add(big.NewInt(m["nbf"].(int64)), o.v)) })
-		add("nbf=now-"+o.name, func(m map[string]any) { m["nbf"] = at(neg(o.v)) })
-		add("iat=now-"+o.name, func(m map[string]any) { m["iat"] = at(neg(o.v)) })
-		add("nbf,iat=now-"+o.name, func(m map[string]any) { m["nbf"], m["iat"] = at(neg(o.v)), at(neg(o.v)) })
-		add("nbf=now+"+o.name, func(m map[string]any) { m["nbf"] = at(o.v) })
-		add("iat=now+"+o.name, func(m map[string]any) { m["iat"] = at(o.v) })
-		add("window=now+"+o.name, func(m map[string]any) {
+		add("exp=now+K/"+o.name, func(m map[string]any) { m["exp"] = at(o.v) })
+		add("exp=nbf+K/"+o.name, func(m map[string]any) { m["exp"] = lit(new(big.Int).Add(big.NewInt(m["nbf"].(int64)), o.v)) })
+		add("nbf=now-K/"+o.name, func(m map[string]any) { m["nbf"] = at(neg(o.v)) })
+		add("iat=now-K/"+o.name, func(m map[string]any) { m["iat"] = at(neg(o.v)) })
+		add("nbf,iat=now-K/"+o.name, func(m map[string]any) { m["nbf"], m["iat"] = at(neg(o.v)), at(neg(o.v)) })
+		add("nbf=now+K/"+o.name, func(m map[string]any) { m["nbf"] = at(o.v) })
+		add("iat=now+K/"+o.name, func(m map[string]any) { m["iat"] = at(o.v) })
+		add("window=now+K/"+o.name, func(m map[string]any) {
 			m["iat"], m["nbf"], m["exp"] = at(plus(o.v, -60)), at(plus(o.v, -60)), at(plus(o.v, 3600))
 		})
-		add("window=now-"+o.name, func(m map[string]any) {
+		add("window=now-K/"+o.name, func(m map[string]any) {
 			m["iat"], m["nbf"], m["exp"] = at(plus(neg(o.v), -60)), at(plus(neg(o.v), -60)), at(plus(neg(o.v), 3600))
 		})
 		// the lower ends far in the past AND the upper end far in the future: the distance is twice the offset
-		add("nbf,iat=now-"+o.name+",exp=now+"+o.name, func(m map[string]any) {
+		add("nbf,iat=now-K,exp=now+K/"+o.name, func(m map[string]any) {
 			m["nbf"], m["iat"], m["exp"] = at(neg(o.v)), at(neg(o.v)), at(o.v)
 		})
 	}
@@ -837,14 +832,20 @@ func timeExtremes() []claimDefect {
 		{"now+88180.5(beyond)", json.Number(fmt.Sprintf("%d.5", now.Unix()+88180))},
 		{"now-60.5", json.Number(fmt.Sprintf("%d.5", now.Unix()-60))}, {"now-3600-as-float-literal", json.Number(fmt.Sprintf("%d.0", now.Unix()-3600))},
 		{"now+1800.5", json.Number(fmt.Sprintf("%d.5", now.Unix()+1800))},
+		// the same claim as another JSON type (a NumericDate is a JSON number; a numeric string is judged by its value,
+		// which only makes the reference more permissive)
+		{"string(now+3600)", fmt.Sprint(now.Unix() + 3600)}, {"string(now-60)", fmt.Sprint(now.Unix() - 60)},
+		{"string(now+1000y)", fmt.Sprint(now.Unix() + 31556952000)}, {"string(2^63)", "9223372036854775808"}, {"string(1e400)", "1e400"},
+		{"string-empty", ""}, {"string-space-number", " " + fmt.Sprint(now.Unix()+3600)}, {"null", nil}, {"true", true}, {"false", false},
+		{"array(now+3600)", []any{now.Unix() + 3600}}, {"empty-array", []any{}}, {"object", map[string]any{"seconds": now.Unix() + 3600}},
 	}
 	for _, a := range absolutes {
 		a := a
-		add("exp="+a.name, func(m map[string]any) { m["exp"] = a.v })
-		add("nbf="+a.name, func(m map[string]any) { m["nbf"] = a.v })
-		add("iat="+a.name, func(m map[string]any) { m["iat"] = a.v })
-		add("nbf,iat="+a.name, func(m map[string]any) { m["nbf"], m["iat"] = a.v, a.v })
-		add("exp,nbf,iat="+a.name, func(m map[string]any) { m["exp"], m["nbf"], m["iat"] = a.v, a.v, a.v })
+		add("exp=absolute/"+a.name, func(m map[string]any) { m["exp"] = a.v })
+		add("nbf=absolute/"+a.name, func(m map[string]any) { m["nbf"] = a.v })
+		add("iat=absolute/"+a.name, func(m map[string]any) { m["iat"] = a.v })
+		add("nbf,iat=absolute/"+a.name, func(m map[string]any) { m["nbf"], m["iat"] = a.v, a.v })
+		add("exp,nbf,iat=absolute/"+a.name, func(m map[string]any) { m["exp"], m["nbf"], m["iat"] = a.v, a.v, a.v })
 	}
 	return out
 }
@@ -1050,105 +1051,7 @@ func TestVerifC04(t *testing.T) {
 		t.Fatalf("harness: canonical path without token: status %d", code)
 	}
 
-	// ---- interleavings of concurrent requests on the ONE authentication middleware object the engine installs on all
-	// its listeners. Echo wraps the matched route's handler in the global middleware on every request (step "wrap":
-	// mw(next)) and then runs the result (step "run"); concurrent requests interleave these steps. Every interleaving of
-	// 2 and of 3 requests (anonymous public, anonymous /internal, authorised /internal) is enumerated; the oracle is the
-	// statement's: an /internal handler runs only for a request carrying an acceptable token, and the handler that runs
-	// for a request is that request's own.
-	if r.Mine(1) {
-		mws, err := auth.eng.VerifCaptureAuthMiddleware()
-		if err != nil || len(mws) != 1 {
-			t.Fatalf("harness: could not capture the authentication middleware: %v (%d)", err, len(mws))
-		}
-		mw := mws[0]
-		type reqT struct {
-			name, path, authz string
-			internal, ok      bool
-		}
-		reqs := []reqT{
-			{"anon-public", "/public/probe", "", false, false},
-			{"anon-internal", "/internal/probe", "", true, false},
-			{"authorised-internal", "/internal/probe/sub", "Bearer " + goodTok, true, true},
-		}
-		e := echo.New()
-		var orders [][]int // sequences of request indexes, each index twice (wrap, run)
-		var gen func(cur []int, left []int)
-		gen = func(cur []int, left []int) {
-			done := true
-			for i, l := range left {
-				if l > 0 {
-					done = false
-					nl := append([]int{}, left...)
-					nl[i]--
-					gen(append(append([]int{}, cur...), i), nl)
-				}
-			}
-			if done {
-				orders = append(orders, cur)
-			}
-		}
-		for _, subset := range [][]int{{0, 2}, {1, 2}, {0, 1}, {0, 1, 2}, {2, 2}} {
-			left := make([]int, len(subset))
-			for i := range left {
-				left[i] = 2
-			}
-			orders = nil
-			gen(nil, left)
-			for _, ord := range orders {
-				ran := make([]string, len(subset)) // which handler ran for request slot i
-				wrapped := make([]echo.HandlerFunc, len(subset))
-				ctxs := make([]echo.Context, len(subset))
-				for i, ri := range subset {
-					rq := reqs[ri]
-					hr, _ := nethttp.NewRequest("GET", rq.path, nil)
-					hr.RequestURI = rq.path
-					if rq.authz != "" {
-						hr.Header.Set("Authorization", rq.authz)
-					}
-					ctxs[i] = e.NewContext(hr, httptest.NewRecorder())
-				}
-				seen := make([]int, len(subset))
-				for _, slot := range ord {
-					slot := slot
-					if seen[slot] == 0 {
-						own := fmt.Sprintf("handler-of-slot-%d", slot)
-						wrapped[slot] = mw(func(c echo.Context) error {
-							// record for which CONTEXT this handler body runs
-							for k := range ctxs {
-								if ctxs[k] == c {
-									ran[k] += own + ";"
-								}
-							}
-							return nil
-						})
-					} else {
-						_ = wrapped[slot](ctxs[slot])
-					}
-					seen[slot]++
-				}
-				r.Eval(fmt.Sprintf("mw-interleaving|%v|%v", subset, ord))
-				for i, ri := range subset {
-					rq := reqs[ri]
-					own := fmt.Sprintf("handler-of-slot-%d;", i)
-					r.Outcome(fmt.Sprintf("mw-interleaving %s ran=%v", rq.name, ran[i] != ""))
-					if ran[i] != "" && ran[i] != own {
-						r.Violation("C04|middleware-interleaving|foreign-handler-ran|"+rq.name,
-							fmt.Sprintf("interleaving %v of requests %v: for %s the handler %q ran instead of its own", ord, subset, rq.name, ran[i]),
-							map[string]any{"subset": subset, "order": ord})
-					}
-					if rq.internal && !rq.ok && ran[i] != "" {
-						r.Violation("C04|middleware-interleaving|internal-handler-ran-without-token|"+rq.name,
-							fmt.Sprintf("interleaving %v of requests %v: a handler ran for %s", ord, subset, rq.name),
-							map[string]any{"subset": subset, "order": ord})
-					}
-					if rq.ok && ran[i] == "" {
-						r.Observation("authorised-request-not-served-in-interleaving", fmt.Sprint(subset, ord))
-					}
-				}
-			}
-		}
-	}
+	// (interleavings of concurrent requests: part `sched`, sched_test.go)
 
 	// ---- part 1: request-target grammar without / with an unacceptable token
 	bases := []string{"/internal/probe", "/internal", "/internal/p/7", "/internal/w/a/b", "/status", "/metrics", "/health", "/status/diagnostics"}
@@ -1400,6 +1303,11 @@ func tokenClass(s tokenSpec) string {
 	cls := s.Desc
 	if len(parts) == 2 {
 		cls = parts[1]
+	}
+	// the numeric-extremes family: one class per placement (which claims are moved, in which direction); the value is
+	// in the description of the violation
+	if f := strings.Split(cls, "/"); len(f) >= 3 && f[0] == "time-extreme" {
+		cls = "time-extreme|" + f[1]
 	}
 	return cls
 }
